@@ -97,27 +97,46 @@ def _native_order(entry, kw, keys, reverse):
     return got, exp
 
 
-def unit_order(U):
+def unit_order(U, prefix="C11", only=None):
     """ORDER BY terms, direction, invalid keys - for all_features and features_of_type"""
     for entry in ("all_features", "features_of_type"):
-        for (on, ob), rev in itertools.product(order_shapes(U.thorough), (False, True)):
+        for ((on, ob), rev), prior in itertools.product(itertools.product(order_shapes(U.thorough), (False, True)), (False, True)):
+            # prior: the same process has already answered a query with the same order_by and the OTHER direction (through
+            # another FeatureDB): the clause is about this call's arguments, whatever was asked before
+            if only is not None and on not in only:
+                continue
+            if prior and (ob is None or (not U.thorough and on not in ("str:start", "tuple:start", "str:length", "list:seqid,start"))):
+                continue
             it = _interp()
             a, b = Q.sym_row("features", "a")[0], Q.sym_row("features", "b")[0]
             kw = {"order_by": ob, "reverse": rev}
             keys = None if ob is None else ([ob] if isinstance(ob, str) else list(ob))
 
-            def run(ctx, entry=entry, kw=kw):
+            def run(ctx, entry=entry, kw=kw, prior=prior):
+                if prior:
+                    try:
+                        list(it.call(I.FeatureDB.children, [blank_db(), "x"], {"order_by": kw["order_by"], "reverse": not kw["reverse"]}))
+                    except ValueError:
+                        pass
+                    ctx.stash["n_prior"] = len(ghostdb.executes(ctx))
                 db = blank_db()
                 if entry == "features_of_type":
                     list(it.call(I.FeatureDB.features_of_type, [db, "exon"], dict(kw)))
                 else:
                     list(it.call(I.FeatureDB.all_features, [db], dict(kw)))
-            base = "C11.order.%s[%s,reverse=%s]" % (entry, on, rev)
+            base = prefix + ".order.%s[%s,reverse=%s%s]" % (entry, on, rev, ",after-opposite-query" if prior else "")
             for p in U.explore(run, it):
                 invalid = keys is not None and any(k not in VALID for k in keys)
 
-                def replay(m, entry=entry, kw=kw, keys=keys, rev=rev, invalid=invalid):
+                def replay(m, entry=entry, kw=kw, keys=keys, rev=rev, invalid=invalid, prior=prior):
                     try:
+                        if prior:
+                            import gffutils.feature as F_
+                            d0 = native_db([F_.Feature(seqid="c", featuretype="t", start=1, end=5, attributes={"ID": ["x"]})])
+                            try:
+                                list(d0.children("x", order_by=kw["order_by"], reverse=not kw["reverse"]))
+                            except ValueError:
+                                pass
                         got, exp = _native_order(entry, kw, keys or [], rev)
                     except Exception as e:
                         return {"inputs": kw, "call": entry, "expected": "ValueError" if invalid else "rows sorted by %r" % (keys,),
@@ -134,7 +153,7 @@ def unit_order(U):
                 if p.kind != "return":
                     U.prove(base + ".noraise#p%d" % p.index, "valid order_by raises nothing (got %r)" % (p.value,), p.pc, z3.BoolVal(False), {}, replay=replay)
                     continue
-                ex = ghostdb.executes(p.ctx)
+                ex = ghostdb.executes(p.ctx)[p.ctx.stash.get("n_prior", 0):]
                 if len(ex) != 1:
                     raise Undecided(base + ": expected one statement")
                 st = Q.parse(ex[0][1])
